@@ -140,12 +140,12 @@ func worker(args []string) {
 			fmt.Fprintln(os.Stderr, err)
 			os.Exit(2)
 		}
-		w := mon.NewWorker(mon.Config{Prop: id, Tier: "quick", Seed: *seed, NShards: 1})
+		w := mon.NewWorker(mon.Config{Prop: id, Tier: "quick", Seed: *seed, NShards: 1, OutDir: *out, Shard: *shard, CaseCPUBudget: p.CaseCPUBudget, HeapBudget: p.HeapBudget})
 		if p.Replay == nil {
 			fmt.Println("property has no replay function")
 			os.Exit(2)
 		}
-		w.Do(rf.Key, func(r *mon.R) { p.Replay(rf.Case, r) })
+		w.DoOwned(rf.Key, func(r *mon.R) { p.Replay(rf.Case, r) })
 		res := w.Result()
 		if res.HarnessError != "" {
 			fmt.Println("CHECK-ERROR", res.HarnessError)
@@ -156,11 +156,15 @@ func worker(args []string) {
 			fmt.Printf("VIOLATION property=%s replay=%s\n", id, *replay)
 			os.Exit(1)
 		}
+		if res.Evaluations == 0 && len(res.Inconclusive) == 0 {
+			fmt.Println("CHECK-ERROR replay did not execute the case")
+			os.Exit(2)
+		}
 		fmt.Printf("%s replay: held (inconclusive=%v)\n", id, res.Inconclusive)
 		return
 	}
 	w := mon.NewWorker(mon.Config{Prop: id, Tier: *tier, Seed: *seed, Shard: *shard, NShards: *nshards,
-		Resume: *resume, OutDir: *out, CaseCPUBudget: p.CaseCPUBudget})
+		Resume: *resume, OutDir: *out, CaseCPUBudget: p.CaseCPUBudget, HeapBudget: p.HeapBudget})
 	p.Generate(w)
 	w.Finish()
 }
